@@ -27,12 +27,15 @@ package main
 
 import (
 	"bytes"
+	"encoding/gob"
+	"encoding/hex"
 	"fmt"
 	"io"
 	"sort"
 	"strconv"
 	"strings"
 
+	"github.com/Tom-Johnston/mamba/graph"
 	"github.com/Tom-Johnston/mamba/graph/search"
 	"verifharness/cmd/c03/gx"
 	"verifharness/hx"
@@ -58,7 +61,11 @@ type wr struct {
 	saved []stamp   // the saves in the stream since the last Reset
 }
 
-type stamp struct{ pos, falses int }
+type stamp struct {
+	pos, falses int
+	ref         []string
+	cfg         *config
+}
 
 func newWriter(kind int) *wr {
 	b := new(bytes.Buffer)
@@ -75,7 +82,8 @@ func newWriter(kind int) *wr {
 }
 
 type rd struct {
-	r      *bytes.Reader
+	r      io.Reader
+	rest   func() int
 	expect []stamp
 }
 
@@ -229,6 +237,7 @@ func execSweep(line string) hx.Result {
 type scanInfo struct {
 	depth []int // len(choices) at position k
 	zeros []int // number of exhausted levels at the end of currentPath at position k
+	entry []int // largest entry of currentPath (untried choices on one level) at position k
 }
 
 // scan runs c for at most limit calls of Next and records the stack shape at every position.
@@ -241,8 +250,15 @@ func scan(c config, limit int) (s scanInfo) {
 		for i := len(v.CurrentPath) - 1; i >= 0 && v.CurrentPath[i] == 0; i-- {
 			z++
 		}
+		e := 0
+		for _, x := range v.CurrentPath {
+			if x > e {
+				e = x
+			}
+		}
 		s.depth = append(s.depth, len(v.Choices))
 		s.zeros = append(s.zeros, z)
+		s.entry = append(s.entry, e)
 		if !it.Next() {
 			break
 		}
@@ -306,6 +322,7 @@ func extremes(s scanInfo) []int {
 	}
 	top(s.depth, 8, false)
 	top(s.zeros, 6, true)
+	top(s.entry, 4, false)
 	var out []int
 	for k := range set {
 		out = append(out, k)
@@ -366,6 +383,22 @@ func genSweeps(g *hx.Gen) {
 			whole(c, 400)
 		}
 	}
+	// values of a and m across the one-byte / length-prefixed boundary of gob's integers and up
+	// to MaxInt; degenerate predicates (nothing, one vertex, one path survive)
+	for _, n := range []int{6, 7} {
+		for _, m := range []int{8, 16, 127, 128, 129, 255, 256, 257, 1000, 1 << 31, 1<<63 - 1} {
+			for _, a := range []int{0, 1, 5, m - 1} {
+				if a < m {
+					whole(config{n, a, m, "none", "-"}, 2000)
+				}
+			}
+		}
+		for _, c := range configs(n, []int{1, 2}, gx.ExtremePreds) {
+			if c.pred != "none" {
+				whole(c, 2000)
+			}
+		}
+	}
 	preds8 := []string{"trifree"}
 	if g.Thorough() {
 		preds8 = gx.Preds
@@ -420,8 +453,44 @@ func execUsage(line string) hx.Result {
 	tracks := []*track{{name: "it0", it: c.fresh()}}
 	writers := map[int]*wr{}
 	var readers []*rd
-	pre, post := gx.PruneFuncs(c.pred, c.placement, nil)
-	saves, loads := 0, 0
+	saves, loads, recovered := 0, 0, 0
+	stride := 0
+	nested := false
+	// nested mode: the pruning callbacks of the iterators created from now on advance, save and
+	// load ANOTHER live iterator before answering (their answer stays a function of the graph)
+	auxCfg := config{4, 0, 1, "none", "-"}
+	auxRef := reference(auxCfg)
+	aux := &track{name: "the iterator driven from inside the callbacks", it: auxCfg.fresh(), ref: auxRef}
+	auxCalls := 0
+	auxStep := func() {
+		auxCalls++
+		if len(r.viol) > 0 {
+			return
+		}
+		if !r.step(aux) && len(r.viol) == 0 {
+			aux = &track{name: aux.name, it: auxCfg.fresh(), ref: auxRef}
+		}
+		if auxCalls%5 == 0 {
+			aux = &track{name: aux.name, it: auxCfg.load(save(aux.it)), pos: aux.pos, falses: aux.falses, ref: auxRef}
+		}
+	}
+	funcs := func(cc config) (pre, post func(*graph.DenseGraph) bool) {
+		p0, q0 := gx.PruneFuncs(cc.pred, cc.placement, nil)
+		if !nested {
+			return p0, q0
+		}
+		return func(g *graph.DenseGraph) bool { auxStep(); return p0(g) }, func(g *graph.DenseGraph) bool { auxStep(); return q0(g) }
+	}
+	fresh := func(cc config) *search.GraphIterator {
+		pre, post := funcs(cc)
+		return search.WithPruning(cc.n, cc.a, cc.m, pre, post)
+	}
+	cfgOf := func(t *track) config {
+		if t.cfg != nil {
+			return *t.cfg
+		}
+		return c
+	}
 	num := func(s string) int { v, _ := strconv.Atoi(s); return v }
 	for _, tok := range strings.Fields(script) {
 		if len(r.viol) > 0 {
@@ -430,8 +499,25 @@ func execUsage(line string) hx.Result {
 		arg := tok[1:]
 		x, y, _ := strings.Cut(arg, ".")
 		switch tok[0] {
+		case 'c':
+			nested = !nested
+		case 'v':
+			stride = num(x)
+			if stride == 0 {
+				stride = -1
+			}
+			for _, t := range tracks {
+				t.stride = stride
+			}
 		case 'n':
-			tracks = append(tracks, &track{name: fmt.Sprintf("it%d", len(tracks)), it: c.fresh()})
+			tracks = append(tracks, &track{name: fmt.Sprintf("it%d", len(tracks)), it: fresh(c), stride: stride})
+		case 'N': // a fresh iterator of another configuration (same predicate): Nn.a.m
+			p := strings.Split(arg, ".")
+			if len(p) != 3 {
+				continue
+			}
+			cc := config{num(p[0]), num(p[1]), num(p[2]), c.pred, c.placement}
+			tracks = append(tracks, &track{name: fmt.Sprintf("it%d(%d,%d,%d)", len(tracks), cc.n, cc.a, cc.m), it: fresh(cc), ref: reference(cc), cfg: &cc, stride: stride})
 		case 'a':
 			if i := num(x); i < len(tracks) {
 				for j := 0; j < num(y); j++ {
@@ -446,8 +532,9 @@ func execUsage(line string) hx.Result {
 			if writers[w] == nil {
 				writers[w] = newWriter(w)
 			}
-			tracks[i].it.Save(writers[w].w)
-			writers[w].saved = append(writers[w].saved, stamp{tracks[i].pos, tracks[i].falses})
+			t := tracks[i]
+			t.it.Save(writers[w].w)
+			writers[w].saved = append(writers[w].saved, stamp{t.pos, t.falses, t.ref, t.cfg})
 			saves++
 		case 'z':
 			if w := writers[num(x)]; w != nil {
@@ -460,7 +547,23 @@ func execUsage(line string) hx.Result {
 				w = newWriter(num(x))
 				writers[num(x)] = w
 			}
-			readers = append(readers, &rd{r: bytes.NewReader(append([]byte(nil), w.buf.Bytes()...)), expect: append([]stamp(nil), w.saved...)})
+			rr, rest := readerOver(append([]byte(nil), w.buf.Bytes()...), uint32(len(readers)+num(x)))
+			readers = append(readers, &rd{r: rr, rest: rest, expect: append([]stamp(nil), w.saved...)})
+		case 'x': // Load from a stream cut in the middle: whatever it does (it panics), later calls must not notice
+			w := writers[num(x)]
+			if w == nil || w.buf.Len() < 8 {
+				continue
+			}
+			cut := append([]byte(nil), w.buf.Bytes()[:w.buf.Len()/2]...)
+			func() {
+				defer func() {
+					if recover() != nil {
+						recovered++
+					}
+				}()
+				pre, post := funcs(c)
+				search.Load(bytes.NewReader(cut), pre, post)
+			}()
 		case 'l':
 			i := num(x)
 			if i >= len(readers) || len(readers[i].expect) == 0 {
@@ -468,14 +571,20 @@ func execUsage(line string) hx.Result {
 			}
 			st := readers[i].expect[0]
 			readers[i].expect = readers[i].expect[1:]
+			cc := c
+			if st.cfg != nil {
+				cc = *st.cfg
+			}
+			pre, post := funcs(cc)
 			it := search.Load(readers[i].r, pre, post)
-			tracks = append(tracks, &track{name: fmt.Sprintf("it%d(loaded from stream %d, saved at %d)", len(tracks), i, st.pos), it: it, pos: st.pos, falses: st.falses})
+			tracks = append(tracks, &track{name: fmt.Sprintf("it%d(loaded from stream %d, saved at %d)", len(tracks), i, st.pos), it: it, pos: st.pos, falses: st.falses, ref: st.ref, cfg: st.cfg, stride: stride})
 			loads++
 		}
 	}
+	_ = cfgOf
 	for _, rdr := range readers {
-		if len(rdr.expect) == 0 && rdr.r.Len() != 0 && len(r.viol) == 0 {
-			r.fail("C04:stream-rest", "%d bytes left in a stream after loading every save in it", rdr.r.Len())
+		if len(rdr.expect) == 0 && rdr.rest() != 0 && len(r.viol) == 0 {
+			r.fail("C04:stream-rest", "%d bytes left in a stream after loading every save in it", rdr.rest())
 		}
 	}
 	// everything to exhaustion, in alternation
@@ -491,19 +600,106 @@ func execUsage(line string) hx.Result {
 			}
 		}
 		for _, t := range tracks {
-			if len(r.viol) == 0 && t.pos != len(ref) {
-				r.fail("C04:count", "%s yielded %d graphs in total, want %d", t.name, t.pos, len(ref))
+			want := len(ref)
+			if t.ref != nil {
+				want = len(t.ref)
+			}
+			if len(r.viol) == 0 && t.pos != want {
+				r.fail("C04:count", "%s yielded %d graphs in total, want %d", t.name, t.pos, want)
 			}
 		}
 	}
 	res := hx.Result{Viol: r.viol, Nontrivial: loads > 0 && len(ref) > 0}
-	res.Buckets = []string{"kind=usage", fmt.Sprintf("n=%d", c.n), fmt.Sprintf("saves=%d", saves), fmt.Sprintf("loads=%d", loads), fmt.Sprintf("writers=%d", len(writers))}
+	res.Buckets = []string{"kind=usage", fmt.Sprintf("n=%d", c.n), fmt.Sprintf("saves=%d", saves), fmt.Sprintf("loads=%d", loads), fmt.Sprintf("writers=%d", len(writers)),
+		fmt.Sprintf("nestedcalls>0=%v", auxCalls > 0), fmt.Sprintf("recoveredloads=%d", recovered), fmt.Sprintf("stride=%d", stride)}
 	if len(r.viol) == 0 {
 		res.Obs = "ok"
 	} else {
 		res.Obs = "differs"
 	}
 	return res
+}
+
+// ---------------------------------------------------------------- streams of another process
+
+// Foreign cases `F n a m predicate placement k cont|hex`: the bytes were written by Save in the
+// GENERATING process (which registers several unrelated types with encoding/gob first, so the
+// type ids in the stream differ from those a worker would assign) and are loaded here, in
+// another process; the continuation is compared with a fresh iterator advanced k times.
+func execForeign(line string) hx.Result {
+	head, hexs, _ := strings.Cut(line, "|")
+	f := strings.Fields(head)
+	var c config
+	c.n, _ = strconv.Atoi(f[1])
+	c.a, _ = strconv.Atoi(f[2])
+	c.m, _ = strconv.Atoi(f[3])
+	c.pred, c.placement = f[4], f[5]
+	k, _ := strconv.Atoi(f[6])
+	cont, _ := strconv.Atoi(f[7])
+	b, err := hex.DecodeString(hexs)
+	if err != nil {
+		panic(err)
+	}
+	var viol []hx.OracleViolation
+	twin := c.fresh()
+	yielded := 0
+	for i := 0; i < k; i++ {
+		if twin.Next() {
+			yielded++
+		}
+	}
+	ld := c.load(b)
+	for i := 0; i < cont && len(viol) == 0; i++ {
+		a, bb := twin.Next(), ld.Next()
+		if a != bb {
+			viol = append(viol, hx.Fail("C04:foreign-answer", "loaded from a stream written in another process at position %d: call %d answers %v, want %v", k, k+i, bb, a))
+		} else if a {
+			if x, y := gx.Snapshot(twin.Value()), gx.Snapshot(ld.Value()); x != y {
+				viol = append(viol, hx.Fail("C04:foreign-sequence", "loaded from a stream written in another process at position %d: call %d yields [%s], want [%s]", k, k+i, y, x))
+			}
+		}
+	}
+	res := hx.Result{Viol: viol, Nontrivial: yielded == k, Obs: "ok", Buckets: []string{"kind=foreign", fmt.Sprintf("n=%d", c.n)}}
+	if len(viol) > 0 {
+		res.Obs = "differs"
+	}
+	return res
+}
+
+type gobShiftA struct{ X, Y int }
+type gobShiftB struct {
+	S []string
+	M map[string]int
+}
+type gobShiftC struct {
+	A gobShiftA
+	B *gobShiftB
+	F []float64
+}
+
+func genForeign(g *hx.Gen) {
+	// move the type ids of this process away from those of a fresh worker
+	var sink bytes.Buffer
+	enc := gob.NewEncoder(&sink)
+	enc.Encode(gobShiftA{1, 2})
+	enc.Encode(gobShiftB{[]string{"x"}, map[string]int{"y": 1}})
+	enc.Encode(gobShiftC{F: []float64{1}})
+	for _, n := range []int{1, 3, 5, 6, 7} {
+		for _, c := range configs(n, []int{1, 3}, []string{"trifree"}) {
+			func() {
+				defer func() { recover() }()
+				it := c.fresh()
+				L := outputLen(c)
+				step := 1 + L/g.Pick(6, 40)
+				for k := 0; k <= L+1; k++ {
+					if k%step == 0 || k >= L {
+						g.Emit(fmt.Sprintf("F %s %d %d|%s", c.String(), k, 6, hex.EncodeToString(save(it))))
+					}
+					it.Next()
+				}
+			}()
+		}
+	}
 }
 
 func genUsage(g *hx.Gen) {
@@ -522,8 +718,18 @@ func genUsage(g *hx.Gen) {
 		"a0.%k s0.W oW zW a0.1 s0.W oW zW a0.1 s0.W oW l0 l1 l2",  // a checkpoint series, every snapshot loaded later
 		"a0.%k s0.W s0.W oW l0 l0 a1.%j a2.%j s1.W s2.W oW l1 l1 l1 l1", // grow one stream over generations
 		"a0.%k s0.W oW oW l0 l1",                                  // two readers over the same bytes
+		"a0.%k N%B s0.W a1.%j s1.W s0.W oW l0 l0 l0",              // a larger and a smaller iterator in one stream
+		"N%B N%S a1.%j a2.%j s1.W s2.W s1.W s2.W oW l0 l0 l0 l0 a0.%k s0.W oW l1", // sizes going down and up through Load
+		"a0.%k s0.W xW oW l0 xW a1.%j s1.W oW l1",                 // a failed Load (truncated stream, recovered) in between
+		"c a0.1 n a1.%k s1.W oW l0 c n a3.%j s3.W oW l1",          // callbacks that drive, save and load another iterator
+		"c N%B a1.%j s1.W oW l0 a0.%k s0.W oW l1",                 // ... with two sizes
+		"v2 a0.%k s0.W oW l0 v0 a1.%j s1.W oW l1 v3",              // Value skipped / called twice
 	}
-	fill := func(t string, k, j, w int) string {
+	fill := func(t string, k, j, w int, c config) string {
+		big := fmt.Sprintf("%d.%d.%d", c.n+1+k%2, 0, 1+j%2)
+		small := fmt.Sprintf("%d.%d.%d", (c.n+1)/2, 0, 1)
+		t = strings.ReplaceAll(t, "%B", big)
+		t = strings.ReplaceAll(t, "%S", small)
 		t = strings.ReplaceAll(t, "%k", strconv.Itoa(k))
 		t = strings.ReplaceAll(t, "%j", strconv.Itoa(j))
 		t = strings.ReplaceAll(t, "W", strconv.Itoa(w))
@@ -544,7 +750,7 @@ func genUsage(g *hx.Gen) {
 					if n >= 4 && !g.Thorough() && (idx+ti)%3 != 0 {
 						continue
 					}
-					emit(c, fill(t, k, idx%3, idx%6))
+					emit(c, fill(t, k, idx%3, idx%6, c))
 				}
 			}
 		}
@@ -563,7 +769,7 @@ func genUsage(g *hx.Gen) {
 		iters, nreaders := 1, 0
 		nw := g.Rng.Range(1, 3)
 		for len(toks) < g.Rng.Range(6, 24) {
-			switch g.Rng.Intn(10) {
+			switch g.Rng.Intn(11) {
 			case 0:
 				if iters < 6 {
 					toks = append(toks, "n")
@@ -578,6 +784,21 @@ func genUsage(g *hx.Gen) {
 			case 7:
 				toks = append(toks, fmt.Sprintf("o%d", g.Rng.Intn(nw)))
 				nreaders++
+			case 8:
+				switch g.Rng.Intn(5) {
+				case 0:
+					toks = append(toks, "c")
+				case 1:
+					toks = append(toks, fmt.Sprintf("v%d", g.Rng.Intn(4)))
+				case 2:
+					toks = append(toks, fmt.Sprintf("x%d", g.Rng.Intn(nw)))
+				default:
+					if iters < 6 {
+						mm := g.Rng.Range(1, 3)
+						toks = append(toks, fmt.Sprintf("N%d.%d.%d", g.Rng.Range(0, 6), g.Rng.Intn(mm), mm))
+						iters++
+					}
+				}
 			default:
 				if nreaders > 0 && iters < 10 {
 					toks = append(toks, fmt.Sprintf("l%d", g.Rng.Intn(nreaders)))
